@@ -859,7 +859,11 @@ fn main() {
             let work = root.join(format!("w{w}"));
             let line = match job {
                 Job::S(s) => {
-                    let r = run_controlled(&work, &s, &src);
+                    // a loader that does not show up within the limit (machine overloaded) is retried once
+                    let mut r = run_controlled(&work, &s, &src);
+                    if r.contains("-hang-") || r.contains("-never-arrived") {
+                        r = run_controlled(&work, &s, &src);
+                    }
                     format!("spec {} {}\ncase {} kind=ctl {} {}", s.id, s.raw, s.id, s.raw.splitn(3, ' ').nth(2).unwrap_or(""), r)
                 }
                 Job::F(f) => {
